@@ -57,7 +57,10 @@ ASSUMPTIONS = [
     "`unspecified` and only deadlock-freedom, distinctness of whatever is returned and schedule-independence of the raise are checked",
     "TLC cross-check: the model has 3 threads x 1 call; model actions are bound to implementation events "
     "(acquire, counter load, counter store, counter load, release); if the implementation's event sequence does not have that "
-    "shape the model is reported not applicable (caps_hit), not a violation",
+    "shape, or its counter/lock values differ from the model's, the model is reported as not describing the implementation "
+    "(caps_hit, exhaustive=false) -- not a violation: the property oracle still judges every replayed path",
+    "executions run on long-lived pooled OS threads (one fresh body and trace function per execution); recorded schedules "
+    "(first, last, most-preempted of every shard) are replayed twice on brand-new OS threads and must observe exactly the same",
 ]
 TIME_CAP = {"quick": 900, "thorough": 3000}
 
@@ -136,11 +139,9 @@ class Harness:
         self.fn = md["gensym"]
         self.watch = lambda code, g: g is md
         self.shared = lambda: md.get(COUNTER)
-        # warm-up: every argument once, sequentially (lazy imports, caches), and the
-        # sequential reference: does a call with this argument raise?
-        self.seq_raises = []
+        # warm-up: every argument twice, sequentially on this thread (lazy imports, caches)
         for a in ARGS:
-            self.seq_raises.append(self._call_alone(a))
+            self._call_alone(a)
             self._call_alone(a)
         # callees run atomically: no global write in any callee frame ...
         writes, mods = sched.audit_callees(lambda: [self._call_alone(a) for a in ARGS], self.watch)
@@ -151,8 +152,10 @@ class Harness:
         mods = [m for m in mods if m is not globals()]
         self.audit_modules = [m.get("__name__") for m in mods]
         self.snap_dicts = list(mods) + [md]
-        # scheduler warm-up + discovery of the watched code objects
+        # scheduler warm-up, discovery of the watched code objects, and the sequential
+        # reference: does a single call with this argument, run alone, raise?
         codes = set()
+        self.seq_raises = []
         for a in ARGS:
             prev = None
             for _ in range(4):
@@ -166,6 +169,11 @@ class Harness:
                 prev = obs
             else:
                 raise sched.SchedError("single-thread warm-up executions keep differing")
+            if ex.deadlock is not None or ex.results[0] is None or ex.results[0][0] != "ok":
+                raise AssertionError(f"gensym{tuple(a)!r} does not terminate normally even when run alone: "
+                                     f"deadlock={ex.deadlock} result={ex.results[0]!r}")
+            o = ex.results[0][1][0]
+            self.seq_raises.append(None if o[0] == "ok" else o[1])
         self.lock_names = sorted(k for k, v in md.items() if isinstance(v, sched.SchedLock))
         self.points = {"shared": sched.Points("shared", codes, self.lock_names),
                        "globals": sched.Points("globals"), "every": sched.Points("every")}
@@ -173,11 +181,14 @@ class Harness:
         self.snap = sched.snapshot_globals(self.snap_dicts, self.skip_names)
 
     def _call_alone(self, a):
+        self.reset()
+        for v in list(vars(self.mod).values()):
+            if isinstance(v, self.sched.SchedLock):
+                v._force_reset()
         try:
             self.fn(*a)
-            return None
-        except Exception as e:
-            return type(e).__name__
+        except Exception:
+            pass
 
     def reset(self):
         vars(self.mod)[COUNTER] = 0
@@ -485,9 +496,15 @@ def _tla_shard(acc):
     sched = h.sched
     here = os.path.dirname(os.path.abspath(sched.__file__))
     work = os.path.join(os.environ.get("MC_SCRATCH") or "/tmp", f"c38-tlc-{os.getpid()}")
-    rc, out, dot = sched.run_tlc(os.path.join(here, "tla", "Gensym.tla"), os.path.join(here, "tla", "Gensym.cfg"), work)
+    try:
+        rc, out, dot = sched.run_tlc(os.path.join(here, "tla", "Gensym.tla"), os.path.join(here, "tla", "Gensym.cfg"), work)
+    except Exception as e:                     # environmental (no java, timeout): the cross-check is not done, say so
+        acc.caps_hit.append(f"TLC could not be run ({type(e).__name__}: {e}); TLA+ cross-check skipped")
+        return
     if "Model checking completed. No error has been found." not in out or not os.path.exists(dot):
-        raise RuntimeError("TLC did not verify mc/tla/Gensym.tla:\n" + out[-3000:])
+        acc.caps_hit.append("TLC did not verify mc/tla/Gensym.tla; TLA+ cross-check skipped: " + out[-600:])
+        return
+    acc.count("tlc_invariants_verified(TypeOK,Mutex,Holder,Distinct,AllDone)", 5)
     init, nodes, edges = sched.read_dot(dot)
     states = {k: parse_state(v) for k, v in nodes.items()}
     paths = sched.maximal_paths(init, edges)
@@ -520,8 +537,12 @@ def _tla_shard(acc):
                 acc.sample({"tla_path": [p[0] for p in path], "forced_schedule": list(ex.choices),
                             "returned": [[str(o[1]) for o in r[1]] for r in ex.results]})
             for msg in mism:
-                acc.disagree("tla-model-mismatch", dict(_case(shard, ex), tla_path=[p[0] for p in path]), msg,
-                             sig="tla-model-mismatch")
+                # the model does not describe this implementation: TLC's verdict does not transfer.  Not a
+                # violation of the property (the property oracle below still judges this schedule).
+                acc.count("tla_model_mismatches")
+                msg = "TLA+ model and implementation disagree, cross-check void: " + msg
+                if len(acc.caps_hit) < 3 and msg not in acc.caps_hit:
+                    acc.caps_hit.append(msg)
             _report(acc, h, shard, ex)
             if pi in (0, len(paths) - 1):      # the forced schedule, recorded, must replay identically as a plain prefix
                 want = ex.observation()
